@@ -2278,7 +2278,8 @@ class Parameters:
         dict_ = dict_ or self._param__private.values
         key = key or param_obj.name
         if shared_parameters._share:
-            param_key = (str(type(self)), param_obj.name)
+            # (the class itself: two classes made by one factory print alike)
+            param_key = (type(self), param_obj.name)
             if param_key in shared_parameters._shared_cache:
                 new_object = shared_parameters._shared_cache[param_key]
             else:
